@@ -74,7 +74,11 @@ ExtraSet ==
     [] ExtraPreset = "all"    -> {<<a, v>> : a \in DOMAIN AttrNames, v \in ValueClasses}
 (* PROV-XML types prov:label as a string: only plain and language-tagged labels are XML-expressible *)
 XmlOK(e) == ("xml" \notin Fmts) \/ e[1] # "label" \/ e[2] \in {"str", "empty", "lang", "none"}
-Final == {[op |-> FinalOp, h |-> "d1", fmt |-> f, opts |-> o] : f \in Fmts, o \in Opts}
+(* FinalOp = "Export" (C13): Fmts is the set of exporters; every ordered pair and a triple repetition *)
+ExportSeqs == {<<a, b>> : a \in Fmts, b \in Fmts} \cup {<<a, a, a>> : a \in Fmts}
+Final == IF FinalOp = "Export"
+         THEN {[op |-> "Export", h |-> "d1", seq |-> q] : q \in ExportSeqs}
+         ELSE {[op |-> FinalOp, h |-> "d1", fmt |-> f, opts |-> o] : f \in Fmts, o \in Opts}
 ExtrasOf(e) == [i \in 1..Len(Vals[e[2]]) |-> <<AttrNames[e[1]], Vals[e[2]][i]>>]
 
 IdOptions(k) == IF k \in Elements THEN {<<NamePL("ex", <<"r">>)>>}
